@@ -359,6 +359,9 @@ SOp(w, ev) ==
                        \/ Has(ev, "ress") /\ \E i \in 1..Len(ev.ress) : ev.ress[i] # exp
                        \/ Has(ev, "ress_w") /\ \E i \in 2..Len(ev.ress_w) :
                              ev.ress_w[i] # (IF exp = Absent \/ ev.val < 0 THEN exp ELSE <<exp[1], ev.val>>)
+                       \* ress2: a refused handle asked again from the same item after the item accepted
+                       \* the live entity of the same index (ev.pre_h) - still refused
+                       \/ Has(ev, "ress2") /\ \E i \in 1..Len(ev.ress2) : ev.ress2[i] # Absent
       \* the lending join's lookup by entity is also part of C06, restricted lookups of C13
       \* (the items of a join over a restricted storage are join items: what is reached through one, and what a
       \* mutation through one changes, is part of C06 too)
@@ -373,7 +376,16 @@ SOp(w, ev) ==
       viaEntry == ev.path \in {"entry_replace", "entry_insert"}
   IN CASE ev.cls = "read"   -> mk(w, Cur(w, s, h))
        [] ev.cls = "write"  ->
-            LET r == DoWriteN(w, s, h, ev.val, IF Has(ev, "ress_w") THEN Len(ev.ress_w) ELSE 1) IN mk(r.w, r.res)
+            LET r == DoWriteN(w, s, h, ev.val, IF Has(ev, "ress_w") THEN Len(ev.ress_w) ELSE 1) IN
+            IF Has(ev, "pre_h")
+            THEN \* between two lookups of the refused h, the same items fetched the live entity ev.pre_h mutably
+                 \* (no write): each fetch is a mutable access of its own
+                 LET ph == <<ev.pre_h[1], ev.pre_h[2]>>
+                     p == DoWriteN(r.w, s, ph, -1, Len(ev.pre_ress))
+                     preBad == {i \in 1..Len(ev.pre_ress) : ev.pre_ress[i] # p.res}
+                     m == mk(p.w, r.res)
+                 IN [w |-> m.w, f |-> m.f \cup (IF preBad # {} THEN {F(q, "lookup of the live entity through an item that refused a stale handle of its index (handle, expected, positions)", <<ph, p.res, preBad>>) : q \in props} ELSE {})]
+            ELSE mk(r.w, r.res)
        [] ev.cls = "insert" ->
             \* the entry API refuses a dead handle before taking the value: the
             \* caller keeps it; Storage::insert consumes (and destroys) it
